@@ -108,6 +108,22 @@ def oracle(case, seed):
         if math.isfinite(a) and not close(b - a, want, 1e-9, atol=1e-9 * max(1.0, abs(a))):
             fails.append("draw %d: prior adds %r but the formula on the realised parameters %s gives %r" % (i, b - a, sorted(realised), want))
             break
+    # "exactly -(x-mu)^2/(2 sigma^2)" — also the second time: the same object evaluated again at the same point under the
+    # same seed returns the same value (the prior is added to the value of THIS evaluation, not to anything kept)
+    if "value" in o1 and not o1.get("complex"):
+        c1 = with_prior(case, case["prior_list"])
+        for rep in (2, 3):
+            np.random.seed(seed)
+            try:
+                again = np.squeeze(lens.hyper_param_likelihood(c1["ddt"], c1["dd"], c1["dlum"], beta_dsp=c1["beta"], **copy.deepcopy(c1["hyper"])))
+                again = float(again.real if np.iscomplexobj(again) else again)
+            except Exception as e:  # noqa
+                fails.append("evaluation %d of the same lens object raised %s" % (rep, err_enum(e)))
+                break
+            if not (again == o1["value"] or (math.isnan(again) and math.isnan(o1["value"]))):
+                fails.append("evaluation %d of the same lens object at the same point and seed gives %r, the first gave %r (prior list %r)"
+                             % (rep, again, o1["value"], case["prior_list"]))
+                break
     # the data likelihood must see the same arguments
     for d0, d1 in zip(r0.data, r1.data):
         if lc.canon_data_call(*d0[:2]) != lc.canon_data_call(*d1[:2]):
